@@ -254,6 +254,81 @@ def step (s : WI) : Op → WI
 
 def run (s : WI) (ops : List Op) : WI := ops.foldl step s
 
+/-! ### evaluation of the `with-items` expression, of the per-item action input and of `concurrency`
+
+`WithItemsTask._schedule_actions` starts with `_get_with_items_values()` (the `with-items` expression:
+every variable must evaluate to an iterable, all of the same length — else `InputException`; the
+expression itself may fail) and `_get_input_dicts()` (the action input of EVERY index of the portion
+`_get_next_indexes()`, evaluated BEFORE the first action of the portion is scheduled); both are
+outside the `try` of the scheduling loop, so a failure leaves `_schedule_actions` as an exception and
+`task_handler.run_task` / `_on_action_complete` / `continue_task` answer with `force_fail_task`:
+`task.set_state(ERROR)` (no `Task.complete`, hence no retry policy) + `force_fail_workflow`; whatever
+the transaction had written before (`_prepare_runtime_context`, `_increase_capacity`,
+`_reset_actions`) is committed with it.  `concurrency` is validated by
+`ConcurrencyPolicy.before_task_start` (`_run_new`, and `_run_existing` of a rerun) before anything
+else happens.
+
+The outcome of these evaluations is an oracle of the run (like the item outcomes): `EvalSpec`.
+`step` / `run` above are the transactions when every evaluation succeeds (`stepE {} = step`). -/
+
+structure EvalSpec where
+  /-- the `with-items` expression evaluates to iterables of one common length -/
+  itemsOk : Bool := true
+  /-- the `concurrency` value is a non-negative integer -/
+  concOk : Bool := true
+  /-- the item indexes whose action input fails to evaluate -/
+  badInputs : List Nat := []
+  deriving DecidableEq, Repr
+
+/-- `_get_input_dicts` raises: the input of some index of the next portion fails to evaluate -/
+def inputFails (e : EvalSpec) (s : WI) : Bool := (nextIndexes s).any fun i => e.badInputs.contains i
+
+/-- `force_fail_task`: `set_state(ERROR)`, no policies -/
+def failTask (s : WI) : WI := { s with tstate := .error }
+
+/-- `WithItemsTask._schedule_actions` with its evaluations: values, (prepare), inputs of the whole
+    portion, and only then the scheduling loop -/
+def scheduleEval (e : EvalSpec) (s : WI) : WI :=
+  if !e.itemsOk then failTask s
+  else if inputFails e (prepare s) then failTask (prepare s)
+  else scheduleActions s
+
+/-- `WithItemsTask.on_action_complete` -/
+def onActionCompleteE (e : EvalSpec) (s : WI) : WI :=
+  if s.tstate.completed then s
+  else
+    let s := increaseCapacity s
+    if isCompleted s then complete s (finalState s)
+    else if hasMore s && truthy s.concurrency then scheduleEval e s
+    else s
+
+/-- one committed transaction, evaluation failures included -/
+def stepE (e : EvalSpec) (s : WI) : Op → WI
+  | .start =>
+    if s.tstate = .idle then
+      if !e.concOk then failTask s
+      else scheduleEval e { s with tstate := .running, concurrency := policyConc s.specConc }
+    else s
+  | .result pos o => step s (.result pos o)
+  | .handled =>
+    if s.unhandled = 0 then s
+    else onActionCompleteE e { s with unhandled := s.unhandled - 1 }
+  | .rerun reset =>
+    if s.tstate = .error then
+      if !e.concOk then
+        { s with tstate := .error, prepared := false, count := 0, capacity := none, retryNo := 0, concurrency := none }
+      else
+        scheduleEval e { s with tstate := .running, prepared := false, count := 0, capacity := none,
+                                retryNo := 0, concurrency := policyConc s.specConc,
+                                items := resetActions reset s.items }
+    else s
+  | .continue =>
+    if s.tstate = .delayed then
+      scheduleEval e { s with tstate := .running, items := resetActions false s.items }
+    else s
+
+def runE (e : EvalSpec) (s : WI) (ops : List Op) : WI := ops.foldl (stepE e) s
+
 /-! ### vocabulary of the property statements -/
 
 /-- the state in which the rerun transaction computes its first portion of indexes:
